@@ -132,7 +132,7 @@ func SliceAliases(slice ssa.Value) []ssa.Value {
 // SendsOn lists the Send instructions on channels created at mk, in fn and its closures.
 func SendsOn(fn *ssa.Function, mk *ssa.MakeChan) []*ssa.Send {
 	var out []*ssa.Send
-	for _, g := range WithClosures(fn) {
+	for _, g := range WithHelpers(fn) {
 		for _, b := range g.Blocks {
 			for _, in := range b.Instrs {
 				if s, ok := in.(*ssa.Send); ok && ChanMake(s.Chan) == mk {
@@ -150,4 +150,41 @@ func Outermost(fn *ssa.Function) *ssa.Function {
 		fn = fn.Parent()
 	}
 	return fn
+}
+
+// WithHelpers: fn, its closures, and the private helpers it is factored into — unexported named
+// functions / methods of the same package called (or started with `go`) from inside, to depth 3.
+func WithHelpers(fn *ssa.Function) []*ssa.Function {
+	seen := map[*ssa.Function]bool{}
+	var out []*ssa.Function
+	var add func(f *ssa.Function, depth int)
+	add = func(f *ssa.Function, depth int) {
+		for _, g := range WithClosures(f) {
+			if seen[g] {
+				continue
+			}
+			seen[g] = true
+			out = append(out, g)
+			if depth >= 3 {
+				continue
+			}
+			for _, cs := range Calls(g) {
+				cc := cs.Common()
+				if cc.IsInvoke() {
+					continue
+				}
+				h, ok := cc.Value.(*ssa.Function)
+				if !ok || h.Blocks == nil || h.Parent() != nil || h.Pkg == nil || h.Pkg != fn.Pkg || seen[h] {
+					continue
+				}
+				n := h.Name()
+				if n == "" || !(n[0] >= 'a' && n[0] <= 'z') || n == "init" {
+					continue
+				}
+				add(h, depth+1)
+			}
+		}
+	}
+	add(fn, 0)
+	return out
 }
